@@ -278,7 +278,7 @@ class Generator:
     def _once(self, cel):
         import tables_tre as T
         self.big_used = False
-        self.budget = 9000
+        self.budget = 9000 if self.attempt < 30 else 10 ** 6      # a layout whose fixed part alone exceeds the budget still gets payloads
         flags = {'raises': set(), 'dups': set()}
         val = self.rec(self.tree, {T.CEL: cel}, flags)
         return val, flags
@@ -289,7 +289,8 @@ class Generator:
         import tables_tre as T
         uses_cel = bool(self.uses.get(T.CEL))
         for attempt in range(40):
-            self.pref = [1, 2, 0, 3, 'big'][self.k % 5] if attempt < 20 else 1
+            self.pref = [1, 2, 0, 3, 'big'][self.k % 5] if attempt < 20 else (1 if attempt < 30 else 0)
+            self.attempt = attempt
             self.k += 1
             state = self.rng.getstate()
             kinds = dict(self.kinds)
